@@ -24,15 +24,15 @@ CHECKS = {
     "C10": dict(technique=EXE, text="Exhaustive TLC sweep (NoDescendantAfterParentDone for known and never-seen operations, un-started branches, nested executors) + real early-completion executions with surviving branches at every kind of position; oracle on the backend stream: no update under a context after its completion record.", design_ref="DESIGN.md 3.5, 5 (C10)"),
     "C01": dict(technique=DUR, text="Exhaustive TLC model checking of the engine on curated programs (all crash points / flush splits / timer and completion orders / failure positions within budgets) + conformance of the real SDK: no function entry while the backend holds a terminal record; later calls yield the recorded outcome; crash sweep at every scheduling step, random pagination incl. empty first page.", design_ref="DESIGN.md 3.4, 5 (C01)"),
     "C02": dict(technique=DUR, text="Exhaustive TLC model checking of the engine on curated programs (all crash points / flush splits / timer and completion orders / failure positions within budgets) + conformance of the real SDK: all deliveries at one call position equal across invocations (typed repr / class|message); final outcome independent of the interruption pattern.", design_ref="DESIGN.md 3.4, 5 (C02)"),
-    "C03": dict(technique=DUR, text="Exhaustive TLC model checking of the engine on curated programs (all crash points / flush splits / timer and completion orders / failure positions within budgets) + conformance of the real SDK: every delivery / PENDING / SUCCEEDED happens after the backend accepted the record, under schedules that starve the consumer and API faults.", design_ref="DESIGN.md 3.4, 5 (C03)"),
+    "C03": dict(technique=DUR, text="Exhaustive TLC model checking of the engine on curated programs (all crash points / flush splits / timer and completion orders / failure positions within budgets) + conformance of the real SDK: every delivery / PENDING / SUCCEEDED happens after the backend accepted the record, under schedules that starve the consumer and API faults; a thread that decided to retry parks only after handing over its RETRY record (in-process retries in branches).", design_ref="DESIGN.md 3.4, 5 (C03)"),
     "C04": dict(technique=DUR, text="Exhaustive TLC model checking of the engine on curated programs (all crash points / flush splits / timer and completion orders / failure positions within budgets) + conformance of the real SDK: at most one entry per (at-most-once step, attempt), START recorded first; every invocation killed at every scheduling step.", design_ref="DESIGN.md 3.4, 5 (C04)"),
     "C06": dict(technique=DUR, text="Exhaustive TLC model checking of the engine on curated programs (all crash points / flush splits / timer and completion orders / failure positions within budgets) + conformance of the real SDK: fault enumeration: every program x API call index x error class: no call / unrecorded outcome / SUCCEEDED / PENDING / hang after the failure, raise vs FAILED by classification.", design_ref="DESIGN.md 3.2, 3.4, 5 (C06)"),
-    "C07": dict(technique=DUR, text="Exhaustive TLC model checking of the engine on curated programs (all crash points / flush splits / timer and completion orders / failure positions within budgets) + conformance of the real SDK: executions driven to a terminal status; PENDING only when wakeable, no hang, no user function running at PENDING; liveness under WF in TLC.", design_ref="DESIGN.md 3.4, 3.5, 5 (C07)"),
+    "C07": dict(technique=DUR, text="Exhaustive TLC model checking of the engine on curated programs (all crash points / flush splits / timer and completion orders / failure positions within budgets) + conformance of the real SDK: executions driven to a terminal status; PENDING only when wakeable, no hang, no user function running at PENDING; liveness under WF in TLC; the checkpoint pipeline after a failed call releases every producer (Batcher.tla NoStuckWaiter / EveryProducerReturns + the real pipeline under systematic schedules, trace-validated).", design_ref="DESIGN.md 3.2, 3.4, 3.5, 5 (C07)"),
     "C11": dict(technique=DUR, text="Exhaustive TLC model checking of the engine on curated programs (all crash points / flush splits / timer and completion orders / failure positions within budgets) + conformance of the real SDK: ModelBackend (twin of Legal) validates the concatenated update stream of every execution incl. histories cut by crashes.", design_ref="DESIGN.md 3.3, 5 (C11)"),
     "C12": dict(technique=DUR, text="Exhaustive TLC model checking of the engine on curated programs (all crash points / flush splits / timer and completion orders / failure positions within budgets) + conformance of the real SDK: strategy attempt numbers, RETRY count/delay, re-attempt only after accepted RETRY, exact run counts.", design_ref="DESIGN.md 3.4, 3.8, 5 (C12)"),
     "C13": dict(technique=DUR, text="Exhaustive TLC model checking of the engine on curated programs (all crash points / flush splits / timer and completion orders / failure positions within budgets) + conformance of the real SDK: state threading incl. falsy states, poll numbering across invocations and crashes, stop point, delays, no poll after terminal.", design_ref="DESIGN.md 3.4, 5 (C13)"),
     "C14": dict(technique=DUR, text="Exhaustive TLC model checking of the engine on curated programs (all crash points / flush splits / timer and completion orders / failure positions within budgets) + conformance of the real SDK: callback id stability, deferred errors, faithful outcomes for every terminal status and completion order, single START.", design_ref="DESIGN.md 3.4, 5 (C14)"),
-    "C18": dict(technique=DUR, text="Exhaustive TLC model checking of the engine on curated programs (all crash points / flush splits / timer and completion orders / failure positions within budgets) + conformance of the real SDK: well-formed output per status, raise only for retriable/invocation errors, checkpoint thread stopped, handlers catching Exception, checkpoint faults.", design_ref="DESIGN.md 3.8, 5 (C18)"),
+    "C18": dict(technique=DUR, text="Exhaustive TLC model checking of the engine on curated programs (all crash points / flush splits / timer and completion orders / failure positions within budgets) + conformance of the real SDK: well-formed output per status, raise only for retriable/invocation errors, checkpoint thread stopped, handlers catching Exception, checkpoint faults; no response above the Lambda limit in UTF-8 bytes (large non-ASCII results).", design_ref="DESIGN.md 3.8, 5 (C18)"),
     "C05": dict(
         technique="TLA+ spec Batcher.tla (producers' check/put/wait and the consumer's overflow drain, batching window, API call, "
                   "merge, release and failure path, one action per queue/event/API operation) model-checked exhaustively with TLC "
